@@ -337,6 +337,162 @@ Definition except (eqb : A -> A -> bool) (slice : list A) (exclude : list A) : l
 
 End Func.
 
+(* ---- Call logs -----------------------------------------------------------
+   The same loops with one more local, [calls]: the arguments of every call of
+   the callback, in the order of the calls. (MapErr above already has it.)
+   Each loop body below calls its callback exactly once, at the start of every
+   iteration it executes, so the log grows by one entry per executed iteration. *)
+
+(* [arg v s]: what the body passes to its callback in an iteration that starts with locals s *)
+Definition logging {A S R L : Type} (arg : A -> S -> L) (body : nat -> A -> S -> ctl S R)
+  : nat -> A -> S * list L -> ctl (S * list L) (R * list L) :=
+  fun i v '(s, calls) =>
+    let calls := calls ++ [arg v s] in
+    match body i v s with
+    | Next s' => Next (s', calls)
+    | Ret r => Ret (r, calls)
+    end.
+
+Section Calls.
+Context {A : Type}.
+
+Definition indexfunc_calls (slice : list A) (f : A -> bool) : Z * list A :=
+  match for_range (logging (fun v _ => v) (fun i v (_ : unit) => if f v then Ret (Z.of_nat i) else Next tt))
+          slice (tt, []) with
+  | Ret (r, calls) => (r, calls)
+  | Next (_, calls) => ((-1)%Z, calls)
+  end.
+
+(* the log holds the pairs (v, value) equals was called with *)
+Definition containsfunc_calls (slice : list A) (value : A) (equals : A -> A -> bool) : bool * list (A * A) :=
+  match for_range (logging (fun v _ => (v, value)) (fun _ v (_ : unit) => if equals v value then Ret true else Next tt))
+          slice (tt, []) with
+  | Ret (r, calls) => (r, calls)
+  | Next (_, calls) => (false, calls)
+  end.
+
+Definition any_calls (slice : list A) (cond : A -> bool) : bool * list A :=
+  match for_range (logging (fun v _ => v) (fun _ v (_ : unit) => if cond v then Ret true else Next tt))
+          slice (tt, []) with
+  | Ret (r, calls) => (r, calls)
+  | Next (_, calls) => (false, calls)
+  end.
+
+Definition all_calls (slice : list A) (cond : A -> bool) : bool * list A :=
+  match for_range (logging (fun v _ => v) (fun _ v (_ : unit) => if negb (cond v) then Ret false else Next tt))
+          slice (tt, []) with
+  | Ret (r, calls) => (r, calls)
+  | Next (_, calls) => (true, calls)
+  end.
+
+Definition map_calls {B : Type} (zero : B) (slice : list A) (conv : A -> B) : result (list B) * list A :=
+  let result := repeat zero (length slice) in
+  match for_range (logging (fun v _ => v)
+                     (fun i v result =>
+                        match set_nth i (conv v) result with
+                        | Ok result' => Next result'
+                        | Panic k => Ret k
+                        end)) slice (result, []) with
+  | Next (result, calls) => (Ok result, calls)
+  | Ret (k, calls) => (Panic k, calls)
+  end.
+
+Definition filter_calls (slice : list A) (match_ : A -> bool) : list A * list A :=
+  match for_range
+          (logging (R := Empty_set) (fun v _ => v) (fun _ v result => if match_ v then Next (result ++ [v]) else Next result))
+          slice ([], []) with
+  | Next (result, calls) => (result, calls)
+  | Ret (e, _) => match e with end
+  end.
+
+(* the log holds the pairs (state, v) acc was called with *)
+Definition fold_calls {State : Type} (slice : list A) (seed : State) (acc : State -> A -> State)
+  : State * list (State * A) :=
+  let state := seed in
+  match for_range (logging (R := Empty_set) (fun v state => (state, v)) (fun _ v state => Next (acc state v)))
+          slice (state, []) with
+  | Next (state, calls) => (state, calls)
+  | Ret (e, _) => match e with end
+  end.
+
+Fixpoint foldreverse_calls_loop {State : Type} (fuel : nat) (slice : list A) (acc : State -> A -> State)
+         (i : Z) (state : State) (calls : list (State * A)) : result State * list (State * A) :=
+  if (i >=? 0)%Z then
+    match fuel with
+    | O => (Panic OtherPanic, calls)
+    | S f =>
+        match get_z slice i with
+        | Panic k => (Panic k, calls)
+        | Ok v => foldreverse_calls_loop f slice acc (i - 1)%Z (acc state v) (calls ++ [(state, v)])
+        end
+    end
+  else (Ok state, calls).
+
+Definition foldreverse_calls {State : Type} (slice : list A) (seed : State) (acc : State -> A -> State)
+  : result State * list (State * A) :=
+  let state := seed in
+  foldreverse_calls_loop (length slice) slice acc (Z.of_nat (length slice) - 1)%Z state [].
+
+(* DistinctFunc: every iteration runs ContainsFunc(result, v, equals); the log holds the pairs
+   (kept element, v) equals was called with *)
+Definition distinctfunc_calls (slice : list A) (equals : A -> A -> bool) : list A * list (A * A) :=
+  match for_range (R := Empty_set)
+          (fun _ v '(result, calls) =>
+             let '(found, c) := containsfunc_calls result v equals in
+             let calls := calls ++ c in
+             if negb found then Next (result ++ [v], calls) else Next (result, calls))
+          slice ([], []) with
+  | Next (result, calls) => (result, calls)
+  | Ret e => match e with end
+  end.
+
+Fixpoint trimleftfunc_calls (slice : list A) (unwanted : A -> bool) : list A * list A :=
+  match slice with
+  | [] => (slice, [])
+  | s0 :: tail =>
+      if unwanted s0 then let '(r, calls) := trimleftfunc_calls tail unwanted in (r, s0 :: calls)
+      else (slice, [s0])
+  end.
+
+Fixpoint trimright_calls_loop (fuel : nat) (unwanted : A -> bool) (slice : list A) (calls : list A)
+  : result (list A) * list A :=
+  if 0 <? length slice then
+    match get_nth (length slice - 1) slice with
+    | Panic k => (Panic k, calls)
+    | Ok last =>
+        let calls := calls ++ [last] in
+        if unwanted last then
+          match fuel with
+          | O => (Panic OtherPanic, calls)
+          | S f =>
+              match slice_range slice 0 (length slice - 1) with
+              | Panic k => (Panic k, calls)
+              | Ok slice' => trimright_calls_loop f unwanted slice' calls
+              end
+          end
+        else (Ok slice, calls)
+    end
+  else (Ok slice, calls).
+
+Definition trimrightfunc_calls (slice : list A) (unwanted : A -> bool) : result (list A) * list A :=
+  trimright_calls_loop (length slice) unwanted slice [].
+
+(* TrimFunc = TrimLeftFunc(TrimRightFunc(slice, unwanted), unwanted): the right trim's calls, then the left trim's *)
+Definition trimfunc_calls (slice : list A) (unwanted : A -> bool) : result (list A) * list A :=
+  match trimrightfunc_calls slice unwanted with
+  | (Panic k, calls) => (Panic k, calls)
+  | (Ok r, calls) => let '(r', calls') := trimleftfunc_calls r unwanted in (Ok r', calls ++ calls')
+  end.
+
+End Calls.
+
+(* the calls of a left fold: (state before, element) for every element in order *)
+Fixpoint fold_trace {A State : Type} (acc : State -> A -> State) (state : State) (l : list A) : list (State * A) :=
+  match l with
+  | [] => []
+  | v :: rest => (state, v) :: fold_trace acc (acc state v) rest
+  end.
+
 (* ---- Reference definitions (the statement of C14) ----------------------- *)
 
 (* Elements of l that are not [eqf]-equal to an element before them (in
@@ -358,6 +514,8 @@ Inductive subseq {A} : list A -> list A -> Prop :=
 (* longest prefix / suffix of unwanted elements removed *)
 Fixpoint drop_while {A} (p : A -> bool) (l : list A) : list A :=
   match l with [] => [] | x :: t => if p x then drop_while p t else l end.
+Fixpoint take_while {A} (p : A -> bool) (l : list A) : list A :=
+  match l with [] => [] | x :: t => if p x then x :: take_while p t else [] end.
 Definition drop_while_end {A} (p : A -> bool) (l : list A) : list A := rev (drop_while p (rev l)).
 Definition trim_ref {A} (p : A -> bool) (l : list A) : list A := drop_while p (drop_while_end p l).
 
